@@ -1266,6 +1266,7 @@ func (f *Frame) strConcat(a, b Val) Val {
 	c := f.c
 	r := c.fresh("cat", "Str")
 	c.assume(c.strInv(r))
+	c.assume(fmt.Sprintf("(= (sown %s) 0)", r))
 	if c.mode == "bv" {
 		c.assume(fmt.Sprintf("(= (slen %s) (bvadd (slen %s) (slen %s)))", r, a.S, b.S))
 		c.assume(fmt.Sprintf("(forall ((k (_ BitVec 64))) (=> (bvult k (slen %s)) (= (select (sarr %s) (bvadd (soff %s) k)) (select (sarr %s) (bvadd (soff %s) k)))))", a.S, r, r, a.S, a.S))
@@ -1397,7 +1398,7 @@ func (f *Frame) execSlice(x *ssa.Slice) {
 			hi = n
 		}
 		f.oblige("bounds", "strslice", and(nonneg(lo), le(lo, hi), le(hi, n)), x.Pos(), nil, "slice bounds out of range")
-		r := fmt.Sprintf("(mkstr (sarr %s) %s %s)", base.S, c.idxAdd(fmt.Sprintf("(soff %s)", base.S), lo), c.idxSub(hi, lo))
+		r := fmt.Sprintf("(mkstr (sarr %s) %s %s (sown %s))", base.S, c.idxAdd(fmt.Sprintf("(soff %s)", base.S), lo), c.idxSub(hi, lo), base.S)
 		f.set(x, Val{T: x.Type(), S: c.bind(x.Name(), r, "Str")})
 	case *types.Slice:
 		cp := fmt.Sprintf("(xcap %s)", base.S)
@@ -1504,7 +1505,7 @@ func (f *Frame) execConvert(x *ssa.Convert) {
 		// string(bytes): snapshot copy
 		n, s := c.heapNameArr(types.Typ[types.Uint8])
 		arr := fmt.Sprintf("(select %s (sbase %s))", c.heap(f.st, n, s), v.S)
-		r := fmt.Sprintf("(mkstr %s (xoff %s) (xlen %s))", arr, v.S, v.S)
+		r := fmt.Sprintf("(mkstr %s (xoff %s) (xlen %s) 0)", arr, v.S, v.S)
 		f.set(x, Val{T: to, S: c.bind(x.Name(), r, "Str")})
 	case isByteSlice(to) && isString(from):
 		// []byte(s): fresh array holding a copy
